@@ -373,7 +373,27 @@ func (v *View) checkC05(res *Result) {
 		}
 		res.Obs["c05.leader_snapshots"]++
 		if e.Snap.APIToken != own[e.Inst] || e.Snap.Token != own[e.Inst] {
-			res.viol("C05", "token-api", "token-api-mismatch", fmt.Sprintf("%s Token()=%s Status().Token=%s latest own record token=%s", e.Inst, e.Snap.APIToken, e.Snap.Token, own[e.Inst]), idx)
+			// discriminator: did a PEER election delete a live record of this instance during the
+			// last TTL (the open C01 defect: read-then-delete on shutdown is not atomic)? Then a
+			// leftover acquisition round of this instance may have re-created the key under that
+			// round's token while the answer to the winning write was still on its way.
+			sig := "token-api-mismatch"
+			for k := len(v.Muts) - 1; k >= 0; k-- {
+				m := v.Muts[k]
+				if m.Seq > idx {
+					continue
+				}
+				if m.VT < e.VT-v.Spec.TTL {
+					break
+				}
+				if m.Op == "Delete" && m.By != e.Inst && m.By != "outside" && m.By != "" && m.PrevVal != "" {
+					if id, _, _ := DecodeIDToken([]byte(m.PrevVal)); id == e.Inst {
+						sig = "token-api-mismatch:after-peer-deleted-own-record"
+						break
+					}
+				}
+			}
+			res.viol("C05", "token-api", sig, fmt.Sprintf("%s Token()=%s Status().Token=%s latest own record token=%s", e.Inst, e.Snap.APIToken, e.Snap.Token, own[e.Inst]), idx)
 		}
 	}
 	multi := 0
